@@ -3,7 +3,7 @@
 import re, collections, json, os
 rows=[]
 for l in open('/verif/CATCH_MATRIX.md'):
-    m=re.match(r'\| (mutant|seeded) \| (\S+) \| (C\d+) \| (\d*) \|',l)
+    m=re.match(r'\| (mutant|seeded) \| (\S+) \| (C\d+|-) \| (\w*) \|',l)
     if m: rows.append(m.groups())
 by=collections.OrderedDict()
 for k,ch,c,rc in rows:
